@@ -76,3 +76,16 @@ Lemma hard_deletes_untracked :
     lookup (b "n") (wt w_state) = Some (KReg, b "N") /\
     lookup (b "n") (wt s') = None.                   (* ... and gone *)
 Proof. eexists. vm_compute. repeat split. Qed.
+
+(* a second departure from git, in the other direction: a staged NEW file (in
+   the index, in neither HEAD's tree nor the target) survives Reset(Hard) as an
+   untracked file; git reset --hard deletes it *)
+Definition w_state2 : state :=
+  mkState [w_tree1; [(b "a", (KReg, b "A2"))]] [(master, 0%Z)] (HSym master)
+          [(b "a", (KReg, b "A")); (b "s", (KReg, b "S"))] [(b "a", (KReg, b "A")); (b "s", (KReg, b "S"))].
+
+Lemma hard_keeps_staged_new :
+  exists s', reset 1 Hard None w_state2 = (None, s') /\
+    lookup (b "s") (idx w_state2) = Some (KReg, b "S") /\
+    lookup (b "s") (idx s') = None /\ lookup (b "s") (wt s') = Some (KReg, b "S").
+Proof. eexists. vm_compute. repeat split. Qed.
